@@ -9,8 +9,12 @@ git checkout -q -- . ; git clean -fdq -e _seeded
 pkgdir=$(python3 -c "import json;print(json.load(open('$m/meta.json'))['demo_package_dir'])")
 pkgs=$(python3 -c "import json;print(' '.join('./'+p.strip('./')+'/' for p in json.load(open('$m/meta.json'))['packages_tested']))")
 git apply $m/patch.diff || { echo "APPLY-FAIL"; exit 1; }
-suite=$(go1.26.8 test -vet=off -count=1 $pkgs 2>&1 | tail -5); suite_rc=$?
-echo "$suite" | grep -q FAIL && suite_rc=1
+# the repo's p2p suite has a load-sensitive test (1 s handshake timeout): retry a failing suite twice
+for attempt in 1 2 3; do
+  suite=$(go1.26.8 test -vet=off -count=1 -p 2 $pkgs 2>&1 | tail -5); suite_rc=0
+  echo "$suite" | grep -q FAIL && suite_rc=1
+  [ $suite_rc = 0 ] && break
+done
 cp $m/demo_test.go $pkgdir/zz_seeded_demo_test.go
 demo_run=$(python3 -c "import json;print(json.load(open('$m/meta.json'))['demo_run'])")
 demo_with=$(eval "$demo_run" 2>&1 | tail -3); 
